@@ -26,10 +26,13 @@ type Config struct {
 	ManualFlush  bool
 	StreamMaxBuf int
 	ReaderMax    int
-	Points       []string // enabled scheduling points ("*" = all)
-	PointLimit   int
-	NoServer     bool // the B end is left to the test (wire-level peer)
-	NoClient     bool // the A end is left to the test (wire-level peer)
+	// AppendEnc: the encoding also implements the optional MarshalAppend interface (the library then marshals
+	// straight into its reusable write buffers instead of copying the result of Marshal)
+	AppendEnc  bool
+	Points     []string // enabled scheduling points ("*" = all)
+	PointLimit int
+	NoServer   bool // the B end is left to the test (wire-level peer)
+	NoClient   bool // the A end is left to the test (wire-level peer)
 	// Handler, when set, replaces the scripted handler on the server side (not serialised).
 	Handler drpc.Handler `json:"-"`
 }
@@ -257,6 +260,9 @@ func NewWorld(cfg Config, rpcs []RPC) *World {
 	w := &World{Cfg: cfg, RPCs: rpcs, streams: map[int]drpc.Stream{}, cancels: map[int]func(){}, hstreams: map[int]drpc.Stream{},
 		HStarted: map[string]int{}, HReturned: map[string]int{}, HMeta: map[int]map[string]string{}, HCtxDone: map[int]bool{}, Recv: map[string][]uint32{}}
 	w.Enc = RawEnc{W: w}
+	if cfg.AppendEnc {
+		w.Enc = AppendEnc{RawEnc{W: w}}
+	}
 	// goroutines an earlier (failed) case of this process left behind are not this world's
 	w.inherited = map[int64]bool{}
 	for _, g := range DrpcGoroutines(Snapshot()) {
@@ -774,9 +780,9 @@ type Filter struct {
 	NoGrants    bool
 	NoRelease   bool
 	// Hold keeps goroutines parked at the named scheduling points parked (others may be released).
-	Hold   func(point string) bool
-	Coarse bool // only whole accepts/deliveries
-	OnlyActors  func(name string) bool
+	Hold       func(point string) bool
+	Coarse     bool // only whole accepts/deliveries
+	OnlyActors func(name string) bool
 	// AcceptOnly: transport may accept bytes (never deliver) on the client->server direction.
 	C2SAcceptOnly bool
 	S2CAcceptOnly bool
